@@ -61,6 +61,8 @@ type lwDef struct {
 	measOff     int // measurement day offset (default 1)
 	measMode    int
 	constSeries bool // groundwater series with one level throughout: a constant groundwater depth
+	rootDepth   int     // soil root depth (dm); 0 = min(profile, 12)
+	lat         float64 // latitude; 0 = default
 	initW, initN float64
 	cfg         map[string]string
 }
@@ -104,6 +106,22 @@ func lwDefs() []lwDef {
 		{name: "sand-series-falling-barley", soil: "sand20", gw: 99, series: [][2]float64{{-5, 3}, {90, 3}, {200, 12}, {400, 22}, {500, 8}}, et: 3, start: s1, days: 560, initW: 0.9, initN: 30,
 			rot: []proj.CropEntry{{Crop: "WG", Sow: "2001-09-20", Harvest: "2002-07-15", Rex: 50}, {Crop: "SE", Sow: "2002-08-01", Harvest: "2002-11-20", Rex: 0}, {Crop: "SW", Sow: "2003-03-20", Harvest: "2003-08-20"}},
 			fert: []proj.Fert{{Date: "2002-03-10", Amount: 70, Kind: "KAS"}}},
+		{name: "sand8-beet-deep-table", soil: "sand8", gw: 99, et: 3, start: s2, days: 600, initW: 0.7, initN: 40, rootDepth: 8,
+			rot:  []proj.CropEntry{{Crop: "ZR", Sow: "2002-04-05", Harvest: "2002-10-25", Rex: 0}, {Crop: "ZR", Sow: "2003-04-10", Harvest: "2003-10-20", Rex: 0, Variety: "chrnew"}, {Crop: "WW", Sow: "2003-11-01", Harvest: "2004-08-01"}},
+			fert: []proj.Fert{{Date: "2002-04-01", Amount: 120, Kind: "KAS"}, {Date: "2003-04-05", Amount: 120, Kind: "KAS"}}},
+		{name: "loam7-wheat-rape", soil: "loam7", gw: 99, et: 2, start: s1, days: 720, initW: 0.6, initN: 30, rootDepth: 7,
+			rot:  []proj.CropEntry{{Crop: "WW", Sow: "2001-09-25", Harvest: "2002-08-05", Rex: 50}, {Crop: "WRA", Sow: "2002-08-25", Harvest: "2003-07-20", Rex: 50}, {Crop: "WW", Sow: "2003-10-01", Harvest: "2004-08-01"}},
+			fert: []proj.Fert{{Date: "2002-03-10", Amount: 90, Kind: "KAS"}, {Date: "2003-03-01", Amount: 140, Kind: "KAS"}}},
+		{name: "silt-shallow-roots-deep-rooters", soil: "silt20", gw: 99, et: 3, start: s1, days: 800, initW: 0.5, initN: 30, rootDepth: 4,
+			rot:  []proj.CropEntry{{Crop: "WW", Sow: "2001-09-25", Harvest: "2002-08-05", Rex: 50}, {Crop: "ZR", Sow: "2003-04-05", Harvest: "2003-10-20", Rex: 0, Variety: "chrnew"}, {Crop: "WW", Sow: "2003-11-01", Harvest: "2004-08-01"}},
+			fert: []proj.Fert{{Date: "2002-03-10", Amount: 120, Kind: "KAS"}, {Date: "2003-04-01", Amount: 140, Kind: "KAS"}}},
+		{name: "loam-alfalfa-uncut-mulched", soil: "loam12", gw: 99, et: 3, start: s1, days: 700, initW: 0.6, initN: 30,
+			rot: []proj.CropEntry{{Crop: "AA", Sow: "2001-09-01", Harvest: "2002-10-15", Rex: 0}, {Crop: "GR", Sow: "2002-10-20", Harvest: "2003-06-30", Rex: 0}, {Crop: "WW", Sow: "2003-10-01", Harvest: "2004-08-01"}}},
+		{name: "north-60-winter-wheat", soil: "loam12", gw: 99, et: 3, start: s1, days: 700, initW: 0.6, initN: 30, lat: 61,
+			rot:  []proj.CropEntry{{Crop: "WW", Sow: "2001-09-05", Harvest: "2002-08-25", Rex: 50}, {Crop: "WR", Sow: "2002-09-05", Harvest: "2003-08-20", Rex: 50}, {Crop: "WW", Sow: "2004-09-01", Harvest: "2005-08-01"}},
+			fert: []proj.Fert{{Date: "2002-04-10", Amount: 90, Kind: "KAS"}}},
+		{name: "south-59-rape", soil: "sand20", gw: 99, et: 2, start: s2, days: 640, initW: 0.7, initN: 30, lat: -59.5,
+			rot:  []proj.CropEntry{{Crop: "WRA", Sow: "2002-03-01", Harvest: "2003-01-20", Rex: 50}, {Crop: "WG", Sow: "2003-03-10", Harvest: "2003-12-20", Rex: 50}, {Crop: "WW", Sow: "2004-09-01", Harvest: "2005-08-01"}}},
 		{name: "loam-constant-series-12", soil: "silt20", gw: 99, series: [][2]float64{{-5, 12}, {100, 12}, {333, 12}, {500, 12}}, constSeries: true, et: 3, start: s2, days: 520, initW: 0.7, initN: 30,
 			rot:  []proj.CropEntry{{Crop: "SW", Sow: "2002-03-25", Harvest: "2002-08-20", Rex: 50}, {Crop: "WW", Sow: "2002-10-01", Harvest: "2003-08-05"}},
 			fert: []proj.Fert{{Date: "2002-04-10", Amount: 70, Kind: "KAS"}, {Date: "2003-03-10", Amount: 90, Kind: "KAS"}}},
@@ -157,6 +175,12 @@ func lwBuild(sp lwSpec) *lwInfo {
 	p.Fert, p.Irr, p.Till = df.fert, df.irr, df.till
 	if df.et == 1 {
 		p.VerdColumn = true
+	}
+	if df.rootDepth > 0 {
+		p.Soil.RootDepth = df.rootDepth
+	}
+	if df.lat != 0 {
+		p.Config["Latitude"] = fmt.Sprint(df.lat)
 	}
 	p.SunColumn = df.et == 4
 	if df.et == 5 {
